@@ -679,6 +679,14 @@ func c29RunWorld(wi int, w *c29World, b c29Bounds, vc *c29Collector, l *vk.Local
 				vc.report(symptom+":"+kind, wi, fmt.Sprintf("%s; cursor for prefix %q (dedup=%v), steps %q (P=Prev, N=Next, F=foreign add): %s; reference list newest first: %s",
 					w, prefix, dedup, path, detail, c29ShowList(cw.exp)))
 			}
+			if dedup && cws[len(cws)-1].bad {
+				// the plain cursor for this world and prefix is already wrong: a
+				// de-duplicating cursor stacked on it is not explored
+				cw.bad = true
+				cws = append(cws, cw)
+				continue
+			}
+			l.Begin(fmt.Sprintf("%s; cursor for prefix %q (dedup=%v)", w, prefix, dedup))
 			if p := vk.Try(func() {
 				start := cw.mk()
 				if cw.judge(start, -1, "") {
@@ -694,6 +702,7 @@ func c29RunWorld(wi int, w *c29World, b c29Bounds, vc *c29Collector, l *vk.Local
 				cw.bad = true
 				vc.report("panic:"+vk.PanicSite(p), wi, fmt.Sprintf("%s; cursor for prefix %q (dedup=%v): panic %s", w, prefix, dedup, p))
 			}
+			l.End()
 			st.cases++
 			l.Case(c29Class(w, inst, prefix, dedup, cw.exp))
 			cws = append(cws, cw)
@@ -709,6 +718,7 @@ func c29RunWorld(wi int, w *c29World, b c29Bounds, vc *c29Collector, l *vk.Local
 			if cw.bad {
 				continue
 			}
+			l.Begin(fmt.Sprintf("%s; cursor for prefix %q (dedup=%v), after a foreign add during the walk", w, cw.prefix, cw.dedup))
 			if p := vk.Try(func() {
 				var seeds []c29Node
 				for _, nd := range cw.nodes {
@@ -726,6 +736,7 @@ func c29RunWorld(wi int, w *c29World, b c29Bounds, vc *c29Collector, l *vk.Local
 				cw.bad = true
 				vc.report("panic:"+vk.PanicSite(p), wi, fmt.Sprintf("%s; cursor for prefix %q (dedup=%v), after a foreign add during the walk: panic %s", w, cw.prefix, cw.dedup, p))
 			}
+			l.End()
 		}
 	}
 }
@@ -746,10 +757,7 @@ func TestVerifC29(t *testing.T) {
 	vk.Run(t, "C29", "model_checking", func(c *vk.Ctx) {
 		b := vk.Pick(c,
 			c29Bounds{stored: 3, storedDel: 3, maxDel: 1, sess: 2, forn: 2, dbSess: 1, dbForn: 1, memSess: 2, holeSess: 1, holeForn: 1, walk: 6, layers: 1},
-			c29Bounds{stored: 4, storedDel: 3, maxDel: 3, sess: 2, forn: 2, dbSess: 2, dbForn: 2, memSess: 3, holeSess: 2, holeForn: 2, walk: 8, layers: 2})
-		if v := os.Getenv("C29_WALK"); v != "" {
-			fmt.Sscan(v, &b.walk)
-		}
+			c29Bounds{stored: 4, storedDel: 3, maxDel: 3, sess: 2, forn: 2, dbSess: 2, dbForn: 1, memSess: 3, holeSess: 1, holeForn: 1, walk: 8, layers: 2})
 		worlds := c29Worlds(b)
 		c.Rule(fmt.Sprintf("world = (store kind in %q, stored history = every sequence of <=%d commands over %q [boltdb kinds also: every history of <=%d commands with 1..%d of them deleted before the session], every interleaving of <=%d session and <=%d foreign additions over the same texts for hybrid stores (<=%d/<=%d for plain DB stores, <=%d session additions for memory stores)); in every world every prefix in %q with and without NewDedupCursor: breadth-first search of the product (exact cursor state x reference position) under {Prev, Next} to a fixpoint (i.e. walks of every length), continued from every reached state after each of %d further foreign addition(s) made while the cursors are live, plus every Prev/Next walk of <=%d steps replayed on a fresh cursor through the Cursor interface only; Get is compared with the reference after every step; worlds simplest first; class = (store kind, dedup and number of removed duplicates, prefix, matching old / session / hidden commands, holes)",
 			c29KindNames, b.stored, c29Texts, b.storedDel, b.maxDel, b.sess, b.forn, b.dbSess, b.dbForn, b.memSess, c29Prefixes, b.layers, b.walk))
@@ -763,7 +771,18 @@ func TestVerifC29(t *testing.T) {
 		vc := &c29Collector{m: map[string]c29Viol{}}
 		var tot c29Stats
 		var mu sync.Mutex
+		watched := map[*vk.Local]bool{}
 		c.Parallel(len(worlds), func(l *vk.Local, i int) {
+			mu.Lock()
+			if !watched[l] {
+				watched[l] = true
+				c.Watch(l) // non-termination watchdog (a cursor step that never returns)
+			}
+			mu.Unlock()
+			if c.TimeUp() {
+				c.Capped("time budget reached; remaining (larger) worlds not explored")
+				return
+			}
 			var st c29Stats
 			c29RunWorld(i, &worlds[i], b, vc, l, &st)
 			mu.Lock()
